@@ -12,7 +12,7 @@ from ..vloop import RES
 
 PID = "C14"
 RULE = (
-    "cases = scripts of subscribe_eventgroup / stop_subscribe_eventgroup (no duplicate subscribes of a pair) / start / stop "
+    "exhaustive: every script of bounded length over {subscribe / stop-subscribe of two eventgroups, start, stop} x timing prefixes relative to the refresh tick, finite TTL with refresh and infinite TTL without; random: cases = scripts of subscribe_eventgroup / stop_subscribe_eventgroup (no duplicate subscribes of a pair) / start / stop "
     "of the ServiceSubscriber for 6 eventgroups (IPv4 and IPv6 local endpoints, UDP and TCP, two of them with the same ids "
     "but different local endpoints, two pairs sharing a local address and port with different transport protocols) and 3 servers, with SUBSCRIBE_TTL 5 and refresh interval from {1, 3} or infinite TTL "
     "without refresh; steps placed by delay, relative to the pending refresh tick (-4RES, -RES/4, +RES/4, +4RES, halfway) or "
